@@ -7,6 +7,7 @@ import (
 	"net/http"
 	"net/url"
 	"reflect"
+	"strings"
 
 	"github.com/flamego/flamego"
 	"github.com/flamego/flamego/inject"
@@ -149,6 +150,9 @@ func runC04(in *Sx) *Sx {
 			}
 			injs[a[0].Int()].Set(c04types[a[1].Int()], v)
 			outs = append(outs, T("ok"))
+		case "setnil": // (setnil inj key): the key is registered with the zero reflect.Value
+			injs[a[0].Int()].Set(c04types[a[1].Int()], reflect.Value{})
+			outs = append(outs, T("ok"))
 		case "value": // (value inj ty)
 			v := injs[a[0].Int()].Value(c04types[a[1].Int()])
 			if !v.IsValid() {
@@ -194,13 +198,7 @@ func runC04(in *Sx) *Sx {
 			}
 			res, err := injs[a[0].Int()].Invoke(fn)
 			if err != nil {
-				name := -1
-				for i, t := range c04types {
-					if err.Error() == fmt.Sprintf("value not found for type %v", t) {
-						name = i
-					}
-				}
-				outs = append(outs, T("err", I(name), T("calls", I(calls))))
+				outs = append(outs, T("err", I(c04typeNamed(err.Error())), T("calls", I(calls))))
 			} else {
 				okRes := len(res) == 1 && res[0].Kind() == reflect.Int && res[0].Int() == 4242
 				outs = append(outs, T("call", T("args", seen...), T("calls", I(calls)), T("result", B(okRes))))
@@ -229,13 +227,7 @@ func runC04(in *Sx) *Sx {
 				}
 			}
 			if err != nil {
-				name := -1
-				for i, t := range c04types {
-					if err.Error() == fmt.Sprintf("value not found for type %v", t) {
-						name = i
-					}
-				}
-				outs = append(outs, T("aerr", I(name), T("sets", sets...)))
+				outs = append(outs, T("aerr", I(c04typeNamed(err.Error())), T("sets", sets...)))
 			} else {
 				outs = append(outs, T("aok", T("sets", sets...)))
 			}
@@ -294,6 +286,35 @@ func c04request(a []*Sx) *Sx {
 
 type c04wrapCtx struct{ flamego.Context }
 
+// c04typeNamed tells which type of the universe an injector error names: the type whose name comes first in
+// the message (the longest one at that place, "<-chan int" before "chan int" before "int"); the wording around
+// the name is not the property's business.  -1: no type of the universe is named.
+func c04typeNamed(msg string) int {
+	wordy := func(b byte) bool {
+		return b == '_' || b == '.' || b == '*' || b == '-' || b >= '0' && b <= '9' || b >= 'a' && b <= 'z' || b >= 'A' && b <= 'Z'
+	}
+	best, at, width := -1, len(msg)+1, 0
+	for i, t := range c04types {
+		name := fmt.Sprintf("%v", t)
+		for from := 0; from < len(msg); {
+			k := strings.Index(msg[from:], name)
+			if k < 0 {
+				break
+			}
+			k += from
+			from = k + 1
+			if (k > 0 && wordy(msg[k-1])) || (k+len(name) < len(msg) && wordy(msg[k+len(name)])) {
+				continue // inside a longer word or name
+			}
+			if k < at || (k == at && len(name) > width) {
+				best, at, width = i, k, len(name)
+			}
+			break
+		}
+	}
+	return best
+}
+
 func genC04(rng *rand.Rand, n int, tier string, emit func(*Sx)) {
 	// the implements table of the universe, computed by reflect, travels with every case
 	var impl []*Sx
@@ -315,8 +336,35 @@ func genC04(rng *rand.Rand, n int, tier string, emit func(*Sx)) {
 		var ops []*Sx
 		nextID := 1
 		id := func() int { nextID++; return nextID }
-		anyType := func() int { return rng.Intn(len(c04types)) }
+		// one case in four also registers invalid reflect.Values (Set(t, reflect.Value{})) under concrete types; such
+		// a case asks for no interface{} (every key implements it, and when an implementing key holds an invalid
+		// value Go's answer depends on map iteration order, "not found" included - outside the modelled domain)
+		nilCase := rng.Intn(4) == 0
+		anyType := func() int {
+			for {
+				if t := rng.Intn(len(c04types)); !(nilCase && t == 8) {
+					return t
+				}
+			}
+		}
 		conc := func() int { return c04concrete[rng.Intn(len(c04concrete))] }
+		// an invalid registration, usually together with a valid one for the same type somewhere in the chain and a
+		// look-up of that type: the invalid entry must hide nothing
+		setNil := func(inj int) {
+			k := []int{0, 1, 4, 5, 10}[rng.Intn(5)]
+			valid := T("map", I(rng.Intn(ninj)), I(k), I(id()))
+			if k == 5 {
+				valid = T("set", I(rng.Intn(ninj)), I(5), I(4), I(id()))
+			}
+			switch rng.Intn(3) {
+			case 0:
+				ops = append(ops, valid, T("setnil", I(inj), I(k)), T("value", I(rng.Intn(ninj)), I(k)))
+			case 1:
+				ops = append(ops, T("setnil", I(inj), I(k)), valid, T("value", I(rng.Intn(ninj)), I(k)))
+			default:
+				ops = append(ops, T("setnil", I(inj), I(k)))
+			}
+		}
 		for k := 3 + rng.Intn(10); k > 0; k-- {
 			inj := rng.Intn(ninj)
 			switch r := rng.Intn(20); {
@@ -334,7 +382,11 @@ func genC04(rng *rand.Rand, n int, tier string, emit func(*Sx)) {
 				}
 				ops = append(ops, T("mapto", I(inj), I(vt), I(id()), I(target)))
 			case r < 10:
-				ops = append(ops, T("set", I(inj), I(5), I(4), I(id())))
+				if nilCase {
+					setNil(inj)
+				} else {
+					ops = append(ops, T("set", I(inj), I(5), I(4), I(id())))
+				}
 			case r < 12:
 				ops = append(ops, T("value", I(inj), I(anyType())))
 			case r < 17:
@@ -358,6 +410,8 @@ func genC04(rng *rand.Rand, n int, tier string, emit func(*Sx)) {
 					fs = append(fs, T("f", I(anyType()), I([]int{1, 1, 0, 2}[rng.Intn(4)])))
 				}
 				ops = append(ops, T("apply", I(inj), T("fields", fs...)))
+			case nilCase:
+				setNil(inj)
 			default:
 				var app, reqs []*Sx
 				for j := rng.Intn(3); j > 0; j-- {
